@@ -9,23 +9,19 @@ import Chess.Model.Uci
 -/
 namespace Chess
 
-/-- What the UCI layer and the search can produce: import of a text whose castling rights and
-en-passant file are backed by the board (the reader does not check that — see
-`ofFen_rights_not_checked`), moves played into the record, search-style play of generated moves
+/-- What the UCI layer and the search can produce: import of a text (the reader checks that its
+castling rights and en-passant file are backed by the board — `ofFen_rightsInv`, `ofFen_epInv`),
+moves played into the record, search-style play of generated moves
 (take-back returns to an earlier reachable game, `Game.pop_push`). -/
 inductive Reach : Game → Prop
-  | imported (s : List Char) (g : Game) : Game.ofFen s = .ok g → g.RightsInv → g.EpInv → Reach g
+  | imported (s : List Char) (g : Game) : Game.ofFen s = .ok g → Reach g
   | played (g : Game) (m : Move) : Reach g → m ∈ (g.getMoves true).1 → Reach (g.pushHistory m)
   | searched (g : Game) (m : Move) (b : Bool) : Reach g → m ∈ (g.getMoves b).1 → Reach (g.push m)
 
 /-- **every reachable game satisfies the representation invariant** (induction over the history) -/
 theorem reach_wf {g : Game} (h : Reach g) : g.WF := by
   induction h with
-  | imported s g hok hr he =>
-    obtain ⟨hc, hs, hh⟩ := ofFen_wf_cache hok
-    obtain ⟨hk, hn, hep, _⟩ := ofFen_wf_rest hok
-    exact { cache := hc, kings := hk, rights := hr, epInv := he, resHash := hh, resScore := hs,
-            nonempty := hn, ep := ⟨by unfold GState.enPassant; omega, hep⟩ }
+  | imported s g hok => exact ofFen_wf hok
   | played g m _ hm ih =>
     have hf := Game.getMoves_fits ih true hm
     have hx := Game.getMoves_extraOk g true m hm
